@@ -908,6 +908,25 @@ theorem h2_spec_holds_on_model (first : Int) (ops : List Model.H2ClientTable.Op)
     unfold h2reach; rw [h2_shape]; exact idinv_run _ first (idinv_init first) ops
   exact obsSpecIds_of_idinv _ first h
 
+/-- **nobody is answered or failed by somebody else's frame** - the step predicates evaluated between consecutive
+snapshots of the implementation hold between consecutive model states: a HEADERS / DATA / trailers / RST_STREAM frame
+with stream id `id` that leaves the connection open changes the deliveries and reset notifications ONLY of stream
+objects registered under `id`; GOAWAY, WINDOW_UPDATE, SETTINGS and a new request change nobody's; a ResetStream of stream
+object w notifies only w and answers nobody; a connection reset / connection error answers nobody -/
+theorem h2_step_spec_holds_on_model (first : Int) (ops : List Model.H2ClientTable.Op) :
+    let s := h2reach first ops
+    (∀ id op, Model.H2ClientTable.Op.frameOn id op → (Model.H2ClientTable.step genShape s op).closed = false →
+      frameStepSpec id (obsOf s) (obsOf (Model.H2ClientTable.step genShape s op)) = true) ∧
+    (∀ op, ((∃ l c, op = .goaway l c) ∨ (∃ i, op = .window i) ∨ op = .noise ∨ (∃ o, op = .open_ o)) →
+      quietStepSpec (obsOf s) (obsOf (Model.H2ClientTable.step genShape s op)) = true) ∧
+    (∀ w, resetStepSpec (some w) (obsOf s) (obsOf (Model.H2ClientTable.step genShape s (.reset w))) = true) ∧
+    resetStepSpec none (obsOf s) (obsOf (Model.H2ClientTable.step genShape s .connReset)) = true ∧
+    resetStepSpec none (obsOf s) (obsOf (Model.H2ClientTable.step genShape s .connError)) = true := by
+  intro s
+  have h := h2_reach_inv first ops
+  rw [h2_shape]
+  exact ⟨fun id op hop hc => frameStepSpec_of s h id op hop hc, fun op hop => quietStepSpec_of s op hop, resetStepSpec_of s⟩
+
 /-! ### non-vacuity and what other shapes do -/
 -- three requests, answers interleaved frame by frame in another order, a duplicate END_STREAM, an unknown id, a trailer
 example : let s := h2reach 1 [.open_ false, .open_ false, .open_ false, .headers 5 2 false, .headers 1 0 false, .data 5 2 false false,
